@@ -309,6 +309,81 @@ def _comp_env(T, expr):
     return env
 
 
+def r1_neighbour(program, rep):
+    """ner_net grows the tree from a node that is in the tree: whatever is
+    used to look a node up in the table of tree nodes is the source, an
+    element of that table, or a coordinate that has just been tested to be
+    in it (the very coordinate: wrapped if the test was on the wrapped
+    one)."""
+    fn = program.get(NER + ":ner_net")
+    inst = qual(fn)
+    T = Terms(fn)
+    SRC = ("param", formals(fn)[0])
+    ROUTE = None
+    loads = []
+    for n in T.cfg.nodes:
+        if n.ast is None or n.kind not in ("stmt", "test"):
+            continue
+        for sub in ast.walk(n.ast):
+            if isinstance(sub, ast.Subscript) and \
+                    isinstance(sub.ctx, ast.Load):
+                try:
+                    base = T.term(sub.value, n)
+                except AnalysisError:
+                    continue
+                if base[0] == "new" and plain(base)[0] == "dict":
+                    loads.append((n, sub, base, T.term(sub.slice, n)))
+    # the table of tree nodes: the dictionary a RoutingTree is stored in
+    for n, st, base, key, val in stores(T):
+        if val[0] in ("call", "callv") and val[1] == ("global",
+                                                      "RoutingTree"):
+            ROUTE = base
+    if ROUTE is None:
+        raise AnalysisError("ner_net: the table of tree nodes")
+    loads = [x for x in loads if x[2] == ROUTE]
+    if not loads:
+        raise AnalysisError("ner_net: no look-up in the table of tree nodes")
+    bad = []
+    n_ok = 0
+
+    def check_value(v, node, seen):
+        """Is ``v`` (bound at ``node``) known to be a key of the table?"""
+        if v in (SRC, ("const", None)) or v == ("rec",):
+            return True
+        if v[0] == "elem" and v[1] in (ROUTE, ("keys", ROUTE)):
+            return True
+        if v[0] == "comp" and v[1][0] == "elem" and \
+                v[1][1] == ("items", ROUTE) and v[2] == 0:
+            return True
+        if v[0] == "mu":
+            if v[1] in seen:
+                return True
+            seen = seen | {v[1]}
+            return all(check_value(v[1].T._bind_term(v[1].T.binds[i]),
+                                   v[1].T.binds[i].node, seen)
+                       for i in v[1].ids)
+        if v[0] in ("phi", "ite"):
+            return all(check_value(x, node, seen)
+                       for x in (v[1:] if v[0] == "phi" else v[2:]))
+        return (mk_cmp("In", v, ROUTE), True) in T.all_facts(node)
+    for n, sub, base, key in loads:
+        if (mk_cmp("In", key, ROUTE), True) in T.all_facts(n):
+            n_ok += 1
+            continue
+        if check_value(key, n, frozenset()):
+            n_ok += 1
+        else:
+            bad.append(sub)
+    rep.check(not bad, "C03-R1", inst, "every look-up in the table of tree "
+              "nodes uses the source, a key of the table, or the very "
+              "coordinate just tested to be in it (%d look-ups)" % n_ok,
+              construct="tree node look-ups", node=bad[0] if bad else fn,
+              fail="a coordinate that was not itself tested to be in the "
+                   "tree (e.g. the un-wrapped form of the one tested) is "
+                   "used to look up a tree node: KeyError on a torus, or "
+                   "the path is grown from the wrong node")
+
+
 def r3_growth(program, rep):
     """A* and the disconnecting copy, decided on value terms and canonical
     facts (which value is stored / attached where, under which tests)."""
@@ -819,6 +894,7 @@ def check(program, rep):
     program.module(NER)
     rep.guard("C03-R1", r1_leaves, program, rep)
     rep.guard("C03-R2", r2_repair, program, rep)
+    rep.guard("C03-R1", r1_neighbour, program, rep)
     rep.guard(["C03-R3", "C03-R4"], r3_growth, program, rep)
     rep.guard("C03-R3", r3_copy, program, rep)
     rep.guard("C03-R5", r5_reconnect, program, rep)
